@@ -75,7 +75,7 @@ end
 @[simp] theorem keyIn_name (w : FW) (D : Dict) (c : Nat) : keyIn w D (.pv (.name c)) = .ok (dhas c D.cols) := rfl
 @[simp] theorem keyIn_none (w : FW) (D : Dict) : keyIn w D (.pv .none) = .ok false := rfl
 @[simp] theorem keyIn_fname (w : FW) (D : Dict) (c : Nat) :
-    keyIn w D (.fname c) = if D.cols.all (fun e => Nat.blt e.1 w.ncols) then .ok false else .stuck := rfl
+    keyIn w D (.fname c) = .ok (fkIn w c D.cols) := rfl
 @[simp] theorem natOfVal_nat (n : Nat) : natOfVal (.pv (.nat n)) = some n := rfl
 @[simp] theorem nameOfVal_name (n : Nat) : nameOfVal (.pv (.name n)) = some n := rfl
 @[simp] theorem pvOfVal_pv (v : PV) : pvOfVal (.pv v) = some v := rfl
